@@ -946,7 +946,8 @@ class Facts:
                         for o in _operands_of_rv(st["rv"]):
                             if o["k"] == "const" and o.get("fn") in cand:
                                 fnrefs.add(o["fn"])
-        inl = {p for p in cand if p in direct}
+        # methods of a new private trait are reached through the trait (resolved while a generic helper is inlined)
+        inl = {p for p in cand if p in direct or (p.startswith("<") and " as " in p.split(">::")[0])}
         if inl:
             def should(g):
                 return g.path in inl
@@ -2178,9 +2179,15 @@ def inline_calls(facts, fn, should_inline, depth=2):
         g = inline_calls(facts, g, should_inline, depth - 1)
         nested = getattr(g, "inlined_paths", set())
         changed = True
+        subst = {n: v for n, v in zip(g.j.get("generics", []), t.get("targs", [])) if re.fullmatch(r"[A-Z]\w*", n)}
+
+        def sub_ty(x):
+            for n, v in subst.items():
+                x = re.sub(r"(?<![\w:])%s(?![\w:])" % re.escape(n), lambda m: v, x)
+            return x
         loff = len(locals_)
         boff = len(blocks)
-        locals_ += list(g.locals)
+        locals_ += [sub_ty(x) for x in g.locals] if subst else list(g.locals)
         for nme in g.j.get("names", []):
             names.append({"name": nme["name"], "place": _shift_place(nme["place"], loff)})
         unwind = t.get("unwind")
@@ -2207,6 +2214,27 @@ def inline_calls(facts, fn, should_inline, depth=2):
             if k in ("drop",):
                 gt["place"] = _shift_place(gt["place"], loff)
             if k == "call":
+                if subst and gt.get("targs"):
+                    gt["targs"] = [sub_ty(x) for x in gt["targs"]]
+                    gt["arg_tys"] = [sub_ty(x) for x in gt.get("arg_tys", [])]
+                    if gt.get("ck") == "unresolved" and gt["callee"].startswith("?"):
+                        # a method of a crate-local trait on the helper's type parameter: with the caller's type argument the
+                        # impl is known (`R: PollOutcome` with R = Poll<Option<_>>)
+                        trait, meth = gt["callee"][1:].rsplit("::", 1)
+                        self_ty = gt["targs"][0] if gt["targs"] else ""
+                        hits = []
+                        for im in facts.impls:
+                            if im["trait"] != trait:
+                                continue
+                            pat = re.escape(im["self_ty"])
+                            pat = re.sub(r"(?<![\w:])[A-Z]\w?(?![\w:])", ".+", pat)
+                            if re.fullmatch(pat, self_ty):
+                                hits.append(im)
+                        if len(hits) == 1:
+                            cand = "<%s as %s>::%s" % (hits[0]["self_ty"], trait, meth)
+                            if cand in facts.fns:
+                                gt["callee"] = cand
+                                gt["ck"] = "item"
                 gt["args"] = [_shift_op(a, loff) for a in gt["args"]]
                 if "dest" in gt:
                     gt["dest"] = _shift_place(gt["dest"], loff)
@@ -2239,4 +2267,118 @@ def inline_calls(facts, fn, should_inline, depth=2):
         if b["term"].get("inlined"):
             nf.inlined_paths.add(b["term"]["inlined"])
             g = facts.fns.get(b["term"]["inlined"])
+    # calls that became resolvable (trait methods on a type parameter, closures handed to the helper and called by it)
+    if depth > 1:
+        nf2 = inline_closure_calls(facts, nf)
+        nf3 = inline_calls(facts, nf2, should_inline, depth - 1)
+        for x in (nf2, nf3):
+            if x is not nf:
+                x.inlined = True
+                x.inlined_paths = set(getattr(x, "inlined_paths", set())) | nf.inlined_paths
+        return nf3
     return nf
+
+
+def inline_closure_calls(facts, fn, rounds=3):
+    """`f()` where f is a closure built in this very function (typically after a helper that takes `impl FnOnce` was inlined):
+    the closure's body is spliced in, its environment bound to the closure value and its parameters to the argument tuple."""
+    cur = fn
+    for _ in range(rounds):
+        j = cur.j
+        blocks = None
+        for bi, blk in enumerate(j["blocks"]):
+            t = blk["term"]
+            if t["k"] != "call" or t.get("target") is None or not re.search(r"ops::function::(FnOnce|FnMut|Fn)>?::call(_once|_mut)?$", t.get("decl", t["callee"])):
+                continue
+            if len(t["args"]) < 1 or t["args"][0]["k"] not in ("copy", "move") or t["args"][0]["p"]:
+                continue
+            # which closure is being called?
+            a, cpath, by_ref = t["args"][0], None, False
+            for _hop in range(6):
+                sd = cur.single_def(a["l"]) if a["k"] in ("copy", "move") and not a["p"] else None
+                if not sd or sd[1] == "term" or sd[2]["k"] != "assign":
+                    break
+                rv = sd[2]["rv"]
+                if rv["k"] == "agg" and "closure" in rv:
+                    cpath = rv["closure"]
+                    break
+                if rv["k"] == "use":
+                    a = rv["op"]
+                elif rv["k"] == "ref" and not rv["place"]["p"]:
+                    by_ref = True
+                    a = {"k": "copy", "l": rv["place"]["l"], "p": []}
+                else:
+                    break
+            g = facts.fns.get(cpath) if cpath else None
+            if g is None or g.kind != "Closure" or any(b2["term"]["k"] == "yield" for b2 in g.blocks) or g.path in getattr(cur, "inlined_paths", set()) and False:
+                continue
+            if blocks is None:
+                blocks = [json.loads(json.dumps(b2)) for b2 in j["blocks"]]
+                locals_ = list(j["locals"])
+                names = list(j["names"])
+            loff, boff = len(locals_), len(blocks)
+            locals_ += list(g.locals)
+            for nme in g.j.get("names", []):
+                names.append({"name": nme["name"], "place": _shift_place(nme["place"], loff)})
+            unwind = t.get("unwind")
+            for gb in g.blocks:
+                nbk = {"cleanup": gb["cleanup"], "stmts": [], "term": None}
+                for st in gb["stmts"]:
+                    s2 = dict(st)
+                    s2["lhs"] = _shift_place(st["lhs"], loff)
+                    if "rv" in s2:
+                        s2["rv"] = _shift_rv(st["rv"], loff)
+                    nbk["stmts"].append(s2)
+                gt = dict(gb["term"])
+                k = gt["k"]
+                for key in ("target", "otherwise", "drop"):
+                    if isinstance(gt.get(key), int):
+                        gt[key] = gt[key] + boff
+                if k == "switch":
+                    gt["targets"] = [[v, d + boff] for v, d in gt["targets"]]
+                    gt["discr"] = _shift_op(gt["discr"], loff)
+                if isinstance(gt.get("unwind"), int):
+                    gt["unwind"] = gt["unwind"] + boff
+                elif gt.get("unwind") == "continue" and isinstance(unwind, int):
+                    gt["unwind"] = unwind
+                if k == "drop":
+                    gt["place"] = _shift_place(gt["place"], loff)
+                if k == "call":
+                    gt["args"] = [_shift_op(x, loff) for x in gt["args"]]
+                    if "dest" in gt:
+                        gt["dest"] = _shift_place(gt["dest"], loff)
+                    if "func" in gt:
+                        gt["func"] = _shift_op(gt["func"], loff)
+                if k == "assert":
+                    gt["cond"] = _shift_op(gt["cond"], loff)
+                if k == "return":
+                    nbk["stmts"].append({"k": "assign", "lhs": t["dest"], "rv": {"k": "use", "op": {"k": "move", "l": loff, "p": []}}, "span": gt.get("span", "")})
+                    gt = {"k": "goto", "target": t["target"], "span": gt.get("span", "")}
+                if k == "resume":
+                    gt = {"k": "goto", "target": unwind, "span": gt.get("span", "")} if isinstance(unwind, int) else gt
+                nbk["term"] = gt
+                blocks.append(nbk)
+            sp = t.get("span", "")
+            env_ty = g.locals[1] if len(g.locals) > 1 else ""
+            arg0 = t["args"][0]
+            if env_ty.startswith("&") and not by_ref and not cur.locals[arg0["l"]].startswith("&"):
+                # the body takes the environment by reference, the call hands the closure over by value
+                blocks[bi]["stmts"].append({"k": "assign", "lhs": {"l": loff + 1, "p": []}, "span": sp,
+                                            "rv": {"k": "ref", "mut": env_ty.startswith("&mut"), "place": {"l": arg0["l"], "p": []}}})
+            else:
+                blocks[bi]["stmts"].append({"k": "assign", "lhs": {"l": loff + 1, "p": []}, "rv": {"k": "use", "op": arg0}, "span": sp})
+            if len(t["args"]) > 1 and t["args"][1]["k"] in ("copy", "move"):
+                tup = t["args"][1]
+                for i in range(g.arg_count - 1):
+                    blocks[bi]["stmts"].append({"k": "assign", "lhs": {"l": loff + 2 + i, "p": []}, "span": sp,
+                                                "rv": {"k": "use", "op": {"k": "move", "l": tup["l"], "p": list(tup["p"]) + [".%d" % i]}}})
+            blocks[bi]["term"] = {"k": "goto", "target": boff, "span": sp, "inlined": g.path}
+        if blocks is None:
+            return cur
+        nj = dict(j)
+        nj["blocks"], nj["locals"], nj["names"] = blocks, locals_, names
+        nf = Fn(nj, cur.crate)
+        nf.inlined = True
+        nf.inlined_paths = set(getattr(cur, "inlined_paths", set()))
+        cur = nf
+    return cur
